@@ -1274,105 +1274,158 @@ impl<'a> WriteTxn<'a> {
             }
 
             // T107/T108: Update Indexes
-            // We separate Read (Old Values) phase from Write (Index Update) phase to avoid deadlocks
-            // caused by holding pager lock during property lookup.
+            //
+            // For every node touched by this transaction, compare the entries it had in each
+            // index before the transaction (labels and values of the committed state) with
+            // the entries it must have afterwards, for every label the node carries - not
+            // only the label it was created with - and also when only its labels change or
+            // it is deleted. The read phase (old values) is separated from the write phase
+            // (index update) to avoid holding the pager lock during property lookups.
             enum IndexOp {
                 Insert(String, crate::property::PropertyValue),
-                Update(
-                    String,
-                    Option<crate::property::PropertyValue>,
-                    crate::property::PropertyValue,
-                ),
-                Remove(String, Option<crate::property::PropertyValue>),
+                Remove(String, crate::property::PropertyValue),
             }
-            let mut index_ops = Vec::new();
+            let mut index_ops: Vec<(IndexOp, InternalNodeId)> = Vec::new();
 
-            // Create a snapshot for reading current state (for old values/labels)
-            let snapshot = self.engine.snapshot();
+            let has_property_indexes = self
+                .engine
+                .index_catalog
+                .lock()
+                .unwrap()
+                .entries
+                .keys()
+                .any(|name| !name.starts_with("__sys_"));
 
-            // Helper to convert API PropertyValue to Storage PropertyValue
-            use crate::read_path_convert::convert_property_to_storage as to_storage;
+            if has_property_indexes {
+                use crate::read_path_convert::convert_property_to_storage as to_storage;
+                use std::collections::BTreeSet;
 
-            for (node, key, value) in &node_properties {
-                let is_new = self.created_nodes.iter().any(|(_, _, iid)| iid == node);
-                let label_id = if is_new {
-                    self.created_nodes
-                        .iter()
-                        .find(|(_, _, iid)| iid == node)
-                        .map(|(_, l, _)| *l)
-                } else {
-                    snapshot.node_label(*node)
-                };
+                // Create a snapshot for reading current state (for old values/labels)
+                let snapshot = self.engine.snapshot();
 
-                if let Some(lid) = label_id {
-                    // Resolve Label Name
-                    let label_name = self
-                        .engine
-                        .label_interner
-                        .lock()
-                        .unwrap()
-                        .get_name(lid)
-                        .map(|s| s.to_string());
+                let created: BTreeSet<InternalNodeId> =
+                    self.created_nodes.iter().map(|(_, _, iid)| *iid).collect();
+                let tombstoned: BTreeSet<InternalNodeId> = run.iter_tombstoned_nodes().collect();
 
-                    if let Some(label_name) = label_name {
-                        let index_name = format!("{}.{}", label_name, key);
-                        // Check if index exists without holding the lock for long
-                        let has_index = self
-                            .engine
-                            .index_catalog
-                            .lock()
-                            .unwrap()
-                            .get(&index_name)
-                            .is_some();
+                let mut affected: BTreeSet<InternalNodeId> = created.clone();
+                affected.extend(node_properties.iter().map(|(node, _, _)| *node));
+                affected.extend(removed_node_props.iter().map(|(node, _)| *node));
+                affected.extend(self.pending_label_additions.iter().map(|(node, _)| *node));
+                affected.extend(self.pending_label_removals.iter().map(|(node, _)| *node));
+                affected.extend(tombstoned.iter().copied());
 
-                        if has_index {
-                            if is_new {
-                                index_ops.push((IndexOp::Insert(index_name, value.clone()), *node));
-                            } else {
-                                // For existing nodes, we need the old value to remove it from index
-                                let old_value = snapshot.node_property(*node, key).map(to_storage);
-                                index_ops.push((
-                                    IndexOp::Update(index_name, old_value, value.clone()),
-                                    *node,
-                                ));
-                            }
+                for node in affected {
+                    let is_new = created.contains(&node);
+
+                    let old_labels: BTreeSet<LabelId> = if is_new {
+                        BTreeSet::new()
+                    } else {
+                        snapshot
+                            .resolve_node_labels(node)
+                            .unwrap_or_default()
+                            .into_iter()
+                            .collect()
+                    };
+                    let mut new_labels = old_labels.clone();
+                    for (_, label_id, iid) in &self.created_nodes {
+                        if *iid == node && *label_id != LabelId::MAX {
+                            new_labels.insert(*label_id);
                         }
                     }
-                }
-            }
+                    for (iid, label_id) in &self.pending_label_additions {
+                        if *iid == node {
+                            new_labels.insert(*label_id);
+                        }
+                    }
+                    for (iid, label_id) in &self.pending_label_removals {
+                        if *iid == node {
+                            new_labels.remove(label_id);
+                        }
+                    }
+                    if tombstoned.contains(&node) {
+                        new_labels.clear();
+                    }
 
-            // Removed properties index updates
-            for (node, key) in &removed_node_props {
-                // If it was created in this tx, it won't be in index yet, so removing it is no-op for index
-                // (except if we added then removed in same tx, MemTable handles that by removing from node_properties)
-                // So we only care about existing nodes.
-                let is_new = self.created_nodes.iter().any(|(_, _, iid)| iid == node);
-                if is_new {
-                    continue;
-                }
+                    // Property keys whose entries can change: the keys written or removed by
+                    // this transaction and, when the label set changes, every stored key.
+                    let mut keys: BTreeSet<String> = BTreeSet::new();
+                    keys.extend(
+                        node_properties
+                            .iter()
+                            .filter(|(n, _, _)| *n == node)
+                            .map(|(_, key, _)| key.clone()),
+                    );
+                    keys.extend(
+                        removed_node_props
+                            .iter()
+                            .filter(|(n, _)| *n == node)
+                            .map(|(_, key)| key.clone()),
+                    );
+                    if !is_new
+                        && old_labels != new_labels
+                        && let Some(props) = snapshot.node_properties(node)
+                    {
+                        keys.extend(props.into_keys());
+                    }
 
-                let label_id = snapshot.node_label(*node);
-                if let Some(lid) = label_id {
-                    let label_name = self
-                        .engine
-                        .label_interner
-                        .lock()
-                        .unwrap()
-                        .get_name(lid)
-                        .map(|s| s.to_string());
-                    if let Some(label_name) = label_name {
-                        let index_name = format!("{}.{}", label_name, key);
-                        let has_index = self
-                            .engine
-                            .index_catalog
-                            .lock()
-                            .unwrap()
-                            .get(&index_name)
-                            .is_some();
+                    let label_names: Vec<(LabelId, String)> = {
+                        let interner = self.engine.label_interner.lock().unwrap();
+                        old_labels
+                            .union(&new_labels)
+                            .filter_map(|lid| interner.get_name(*lid).map(|n| (*lid, n.to_string())))
+                            .collect()
+                    };
 
-                        if has_index {
-                            let old_value = snapshot.node_property(*node, key).map(to_storage);
-                            index_ops.push((IndexOp::Remove(index_name, old_value), *node));
+                    for key in keys {
+                        let old_value = if is_new {
+                            None
+                        } else {
+                            snapshot.node_property(node, &key).map(to_storage)
+                        };
+                        let new_value = if let Some((_, _, value)) = node_properties
+                            .iter()
+                            .find(|(n, k, _)| *n == node && *k == key)
+                        {
+                            Some(value.clone())
+                        } else if removed_node_props
+                            .iter()
+                            .any(|(n, k)| *n == node && *k == key)
+                        {
+                            None
+                        } else {
+                            old_value.clone()
+                        };
+
+                        for (label_id, label_name) in &label_names {
+                            let index_name = format!("{}.{}", label_name, key);
+                            // Check if index exists without holding the lock for long
+                            let has_index = self
+                                .engine
+                                .index_catalog
+                                .lock()
+                                .unwrap()
+                                .get(&index_name)
+                                .is_some();
+                            if !has_index {
+                                continue;
+                            }
+                            let old_entry = old_labels
+                                .contains(label_id)
+                                .then(|| old_value.clone())
+                                .flatten();
+                            let new_entry = new_labels
+                                .contains(label_id)
+                                .then(|| new_value.clone())
+                                .flatten();
+                            if old_entry == new_entry {
+                                continue;
+                            }
+                            if let Some(old) = old_entry {
+                                index_ops.push((IndexOp::Remove(index_name.clone(), old), node));
+                            }
+                            if let Some(new) = new_entry {
+                                index_ops.push((IndexOp::Insert(index_name, new), node));
+                            }
                         }
                     }
                 }
@@ -1384,54 +1437,23 @@ impl<'a> WriteTxn<'a> {
                 let mut pager = self.engine.pager.write().unwrap();
 
                 for (op, node_id) in index_ops {
-                    match op {
-                        IndexOp::Insert(name, val) => {
-                            if let Some(re) = catalog.entries.get_mut(&name) {
-                                let mut tree = crate::index::btree::BTree::load(re.root);
+                    let (name, value, insert) = match op {
+                        IndexOp::Insert(name, value) => (name, value, true),
+                        IndexOp::Remove(name, value) => (name, value, false),
+                    };
+                    if let Some(re) = catalog.entries.get_mut(&name) {
+                        let mut tree = crate::index::btree::BTree::load(re.root);
 
-                                let mut key = Vec::new();
-                                key.extend_from_slice(&re.id.to_be_bytes());
-                                key.extend_from_slice(&encode_ordered_value(&val));
+                        let mut key = Vec::new();
+                        key.extend_from_slice(&re.id.to_be_bytes());
+                        key.extend_from_slice(&encode_ordered_value(&value));
 
-                                let _ = tree.insert(&mut pager, &key, node_id as u64);
-                                re.root = tree.root();
-                            }
+                        if insert {
+                            let _ = tree.insert(&mut pager, &key, node_id as u64);
+                        } else {
+                            let _ = tree.delete(&mut pager, &key, node_id as u64);
                         }
-                        IndexOp::Update(name, old_val_opt, new_val) => {
-                            if let Some(re) = catalog.entries.get_mut(&name) {
-                                let mut tree = crate::index::btree::BTree::load(re.root);
-
-                                // 1. Remove old value
-                                if let Some(old_val) = old_val_opt {
-                                    let mut old_key = Vec::new();
-                                    old_key.extend_from_slice(&re.id.to_be_bytes());
-                                    old_key.extend_from_slice(&encode_ordered_value(&old_val));
-
-                                    let _ = tree.delete(&mut pager, &old_key, node_id as u64);
-                                }
-
-                                // 2. Insert new value
-                                let mut new_key = Vec::new();
-                                new_key.extend_from_slice(&re.id.to_be_bytes());
-                                new_key.extend_from_slice(&encode_ordered_value(&new_val));
-
-                                let _ = tree.insert(&mut pager, &new_key, node_id as u64);
-                                re.root = tree.root();
-                            }
-                        }
-                        IndexOp::Remove(name, old_val_opt) => {
-                            if let Some(re) = catalog.entries.get_mut(&name) {
-                                let mut tree = crate::index::btree::BTree::load(re.root);
-
-                                if let Some(old_val) = old_val_opt {
-                                    let mut old_key = Vec::new();
-                                    old_key.extend_from_slice(&re.id.to_be_bytes());
-                                    old_key.extend_from_slice(&encode_ordered_value(&old_val));
-                                    let _ = tree.delete(&mut pager, &old_key, node_id as u64);
-                                    re.root = tree.root();
-                                }
-                            }
-                        }
+                        re.root = tree.root();
                     }
                 }
                 catalog.flush(&mut pager)?;
